@@ -270,6 +270,53 @@ func (t *FnTrans) applyContract(ct *Contract, key string, callee *ssa.Function, 
 			}
 		}
 	}
+	if pnameInv := ct.Opts["invokes"]; pnameInv != "" {
+		// higher-order contract: the callee invokes this function argument (zero or more times, sequentially,
+		// in the caller's goroutine, with the caller's locks held). A closure literal passed here is verified
+		// separately under its own contract; its precondition must hold at this point and what it may modify
+		// is havocked.
+		for i, n := range pn {
+			if n != pnameInv || i >= len(args) {
+				continue
+			}
+			cv := args[i]
+			if cv.Fn == nil {
+				t.abstr["invoked function value is not a closure literal: "+key] = true
+				t.havocCall("<invoked by "+key+">", c, nil)
+				break
+			}
+			cc := t.eng.specs.Funcs[fnKey(cv.Fn)]
+			if cc == nil {
+				t.abstr["closure without contract passed to "+key] = true
+				t.havocCall("<closure "+fnKey(cv.Fn)+" invoked by "+key+">", c, nil)
+				break
+			}
+			cc.Used = true
+			cenv := &Env{t: t, vars: map[string]SVal{}, st: t.cur, pkg: cv.Fn.Pkg.Pkg, selfAlloc0: t.get("$alloc")}
+			for j, fv := range cv.Fn.FreeVars {
+				if j < len(cv.Bnd) {
+					T := t.resolve(fv.Type())
+					cenv.vars[fv.Name()] = SVal{S: t.termOfOpt(cv.Bnd[j]), T: T, Sort: t.sortOf(T), Tgt: cv.Bnd[j].P}
+				}
+			}
+			for _, p := range cv.Fn.Params {
+				T := t.resolve(p.Type())
+				a := t.newConst("cbarg."+p.Name(), t.sortOf(T))
+				t.assume(t.rangeFact(a, T))
+				cenv.vars[p.Name()] = SVal{S: a, T: T, Sort: t.sortOf(T)}
+			}
+			sk := fnKey(cv.Fn)
+			if k := strings.LastIndex(sk, "/"); k >= 0 {
+				sk = sk[k+1:]
+			}
+			for j, r := range cc.Requires {
+				t.obligeNamed(fmt.Sprintf("pre.closure.%s.%d", sk, j+1), "pre", cenv.evalBool(r.E), "closure invoked by "+key+" requires: "+r.Text)
+			}
+			save := env
+			_ = save
+			t.applyModifies(cc, cenv)
+		}
+	}
 	// preconditions
 	nth := t.count("call:" + key)
 	short := key
@@ -612,7 +659,7 @@ func (t *FnTrans) modItem(x *Expr, env *Env, f func(comp, sort, ref string)) {
 					}
 					if ts := t.eng.specs.Types[typeName(T)]; ts != nil {
 						if gs, ok := ts.GhostField[x.Name]; ok {
-							f("H."+originName(T)+".$"+x.Name, "(Array Int "+gs+")", "")
+							f("H."+originName(T)+".$"+x.Name, "(Array Int "+t.ghostSort(gs, T)+")", "")
 							return
 						}
 					}
@@ -627,7 +674,7 @@ func (t *FnTrans) modItem(x *Expr, env *Env, f func(comp, sort, ref string)) {
 			if n, ok := derefNamed(env.resolveT(base.T)); ok {
 				if ts := t.eng.specs.Types[typeName(n)]; ts != nil {
 					if gs, ok := ts.GhostField[x.Name]; ok {
-						f("H."+originName(n)+".$"+x.Name, "(Array Int "+gs+")", base.S)
+						f("H."+originName(n)+".$"+x.Name, "(Array Int "+t.ghostSort(gs, n)+")", base.S)
 						return
 					}
 				}
